@@ -1157,13 +1157,18 @@ func c14serverTable(p *Program, r *Report, rule string, only func(string) bool) 
 						out = append(out, lastDot(e.AddrK)+"="+e.Val.Key())
 					}
 				}
+				// a fresh object per handshake: what is returned is an allocation made on this path, never an
+				// object loaded from a package variable, map or field (negotiation writes into it; seed C14-T)
+				if pa.End == "return" && len(pa.Ret) > 0 && !strings.HasPrefix(pa.Ret[0].Key(), "&H:") {
+					return "NOT-FRESH: returns " + pa.Ret[0].Key()
+				}
 				return strings.Join(out, " ")
 			},
 			Oracle: func(v Valuation) []string {
 				b := fmt.Sprint(v.Int("param:m") == 2)
 				return []string{"clientNoContextTakeover=" + b + " serverNoContextTakeover=" + b}
 			},
-			What: "CompressionMode.opts(): both no_context_takeover flags are set exactly for CompressionNoContextTakeover (2)",
+			What: "CompressionMode.opts(): returns an object allocated on that path (fresh per handshake); both no_context_takeover flags are set exactly for CompressionNoContextTakeover (2)",
 		})
 	}
 }
